@@ -25,7 +25,9 @@ pub fn parse(raw: &[u8]) -> Result<IndexMap<String, Vec<u8>>> {
     // Validate magic number.
     let magic = cursor.read_u32::<BigEndian>()?;
     if magic != MAGIC {
-        todo!()
+        return Err(crate::ArchiveError::OtherError(
+            "Bad pack archive: invalid magic number.".to_string(),
+        ));
     }
 
     // Retrieve the file count.
@@ -43,6 +45,11 @@ pub fn parse(raw: &[u8]) -> Result<IndexMap<String, Vec<u8>>> {
     for entry in entry_metadata {
         cursor.set_position(entry.name_address as u64);
         let name = cursor.read_shift_jis_string()?;
+        // Reject a file range that leaves the buffer before sizing a buffer from its length field.
+        let file_end = entry.file_address as u64 + entry.file_size_unpadded as u64;
+        if file_end > raw.len() as u64 {
+            return Err(crate::ArchiveError::ArchiveTooSmall);
+        }
         cursor.set_position(entry.file_address as u64);
         #[cfg(mila_verif)]
         crate::verif_support::note_alloc(entry.file_size_unpadded as usize);
